@@ -181,6 +181,15 @@ class SetWrapper(typing.MutableSet[T]):
             for v in arg:
                 self.add(v)
 
+    # The results of the set operators (&, |, -, ^ and the in-place forms
+    # built on them) are plain sets: they must never own the nodes, and the
+    # owning subclasses have constructors that do not take just an iterable.
+    @classmethod
+    def _from_iterable(  # type: ignore[override]
+        cls, it: typing.Iterable[T]
+    ) -> typing.Set[T]:
+        return set(it)
+
     # begin functions for ABC
     def __contains__(self, v: object) -> bool:
         return v in self._data
